@@ -81,14 +81,14 @@ impl TablePrinter {
 
 pub struct FollowFileIterator {
     reader: BufReader<File>,
-    line: String
+    line: Vec<u8>
 }
 
 impl FollowFileIterator {
     pub fn new(reader: BufReader<File>) -> FollowFileIterator {
         FollowFileIterator {
             reader,
-            line: String::new()
+            line: Vec::new()
         }
     }
 }
@@ -98,13 +98,15 @@ impl Iterator for FollowFileIterator {
 
     fn next(&mut self) -> Option<Self::Item> {
         loop {
-            if let Err(_) = self.reader.read_line(&mut self.line) {
+            // Read bytes, not a String: a poll may end in the middle of a multi-byte character,
+            // which is only complete (and decodable) once the rest of the line has been written.
+            if let Err(_) = self.reader.read_until(b'\n', &mut self.line) {
                 return None;
             }
 
-            // If we get an EOF in the middle of a line, read_line will return.
+            // If we get an EOF in the middle of a line, read_until will return.
             // We will then try again and use content of current read line
-            if !self.line.ends_with('\n') {
+            if !self.line.ends_with(b"\n") {
                 #[cfg(feature="verif_hooks")]
                 if crate::verif_hooks::follow_retry() == crate::verif_hooks::FollowAction::Stop {
                     return None;
@@ -113,11 +115,11 @@ impl Iterator for FollowFileIterator {
                 continue;
             }
 
-            if self.line.ends_with('\n') {
+            if self.line.ends_with(b"\n") {
                 self.line.pop();
             }
 
-            return Some(std::mem::take(&mut self.line));
+            return Some(String::from_utf8_lossy(&std::mem::take(&mut self.line)).into_owned());
         }
     }
 }
